@@ -333,6 +333,29 @@ def scen_closer_held_after_its_section():
     return out
 
 
+def scen_remove_from_the_middle(equal):
+    """remove() takes one element out of the middle: it is handed out once (by remove), the rest keeps its FIFO order,
+    each element exactly once - also when the elements compare equal (distinct objects put in the same clock tick)"""
+    def body(ft):
+        q = DelayedQueue(D)
+        els = [El(n) for n in "ABCD"] if equal else list("ABCD")
+        for e in els:
+            q.put(e, delay=False)
+        target = els[2]
+        r = q.remove(lambda e: e is target)
+        rest = []
+        for _ in range(3):
+            rest.append(q.get())
+        out = []
+        if r is not target:
+            out.append(f"remove(is C) returned {r!r}")
+        want = [els[0], els[1], els[3]]
+        if len(rest) != 3 or any(a is not b for a, b in zip(rest, want)):
+            out.append(f"after removing C from [A, B, C, D]{' (all four compare equal)' if equal else ''}, get() handed out {rest!r}, expected [A, B, D] in that order (by identity)")
+        return out
+    return with_fake(body)
+
+
 def scen_close_unblocks():
     q = DelayedQueue(0.1)
     got = []
@@ -354,7 +377,8 @@ def scen_close_unblocks():
 SCEN = {"remove-head-nodelay": lambda: scen_remove_head_before_pop(False), "remove-head-delayed": lambda: scen_remove_head_before_pop(True),
         "get-during-remove-scan": scen_get_during_remove_scan, "second-delayed-not-early": scen_second_delayed_not_early, "close-unblocks": scen_close_unblocks,
         "remove-head-nodelay-equal-elements": lambda: scen_remove_head_before_pop(False, True), "remove-head-delayed-equal-elements": lambda: scen_remove_head_before_pop(True, True),
-        "second-delayed-not-early-equal-elements": lambda: scen_second_delayed_not_early(True), "woken-then-removed": scen_woken_then_removed, "closer-held-after-its-section": scen_closer_held_after_its_section}
+        "second-delayed-not-early-equal-elements": lambda: scen_second_delayed_not_early(True), "woken-then-removed": scen_woken_then_removed, "closer-held-after-its-section": scen_closer_held_after_its_section,
+        "remove-from-the-middle": lambda: scen_remove_from_the_middle(False), "remove-from-the-middle-equal-elements": lambda: scen_remove_from_the_middle(True)}
 
 
 def main():
